@@ -1148,6 +1148,8 @@ class Interp:
         return self.binop(BINOPS[type(e.op)], a, b)
 
     def binop(self, op, a, b):
+        if op == "/" and (isinstance(a, self.PathVal) or isinstance(b, self.PathVal)):
+            return self.PathVal(f"{getattr(a, 's', a)}/{getattr(b, 's', b)}")
         if isinstance(a, Obj):
             name = DUNDER[op]
             f, _ = a.cls.lookup(name)
@@ -1417,6 +1419,12 @@ class Interp:
             return acc
         if isinstance(container, Arr) and container.concrete_len():
             return self.contains([container.get(k) for k in range(container.length)], x)
+        if isinstance(container, Arr):
+            # x in <symbolic-length list>: exists an index with an equal element
+            from .npmodel import sym_any
+
+            eqs = Arr(container.length, fn=lambda i: self.truth(self.compare(ast.Eq(), x, container.get(i))), dtype="bool", is_nd=False)
+            return sym_any(self.ctx, eqs)
         if isinstance(container, RangeVal):
             if all(isinstance(v, int) for v in (container.start, container.stop, container.step, x)):
                 return x in range(container.start, container.stop, container.step)
@@ -1499,6 +1507,8 @@ class Interp:
             if isinstance(sub, ModuleVal):
                 return sub
             raise PyExc(ExcVal("AttributeError", (f"module {obj.name} has no attribute {name}",)))
+        if isinstance(obj, self.PathVal):
+            return Opaque(f"path.{name}")
         if isinstance(obj, NativeModule):
             if name in obj.ns:
                 return obj.ns[name]
@@ -1593,6 +1603,8 @@ class Interp:
             obj.deleted.discard(k)
         elif isinstance(obj, Obj):
             self.call_method(obj, "__setitem__", [key, v])
+        elif isinstance(obj, NativeModule) and obj.dropped:
+            self.ctx.dropped.add(f"{obj.name}[...] = ... (plotting data)")
         else:
             seq_setitem(self, obj, key, v)
 
